@@ -181,7 +181,8 @@ let handle (line:string) : string =
       b2s s ^ b2s (s && run_guardb c es f) ^ b2s (s && run_completeb c es f) ^
       let sh = static_hb c in   (* run_conforms_history_partial: documents with <history> (wf_histb + side conditions) *)
       b2s si ^ b2s (si && run_guardb c es f && run_completeb c es f) ^
-      b2s sh ^ b2s (sh && run_guardb c es f && run_completeb c es f)
+      b2s sh ^ b2s (sh && run_guardb c es f && run_completeb c es f) ^
+      b2s (sh && run_guardb c es f)   (* run_conforms_prefix_history_partial: needs the guard only *)
   | Atom "reach" :: Atom late :: tree :: _ ->
       (* which theorems' hypotheses the document / its flat tables satisfy *)
       let t = tree_of tree in
